@@ -1,8 +1,11 @@
 package main
 
 import (
+	"bytes"
 	"encoding/json"
 	"fmt"
+	"os"
+	"os/exec"
 	"sort"
 	"strconv"
 	"strings"
@@ -17,6 +20,7 @@ import (
 type c18Case struct {
 	History []string `json:"history"` // transition names, applied after restoring defaults
 	Family  string   `json:"family,omitempty"`
+	Cold    bool     `json:"cold_start,omitempty"` // the history is the first thing a fresh process does (no call of any kind before it)
 }
 
 func init() {
@@ -589,7 +593,7 @@ func c18Run(c *Ctx) {
 			return
 		}
 	}
-	c.S.Rule = "explicit-state breadth-first search over the real package-option machine: state = dump of every option-like (scalar / function / pointer-nil-ness) package-level variable of mxj, generated at build time so that a new option variable is included automatically (tables, caches and pools are not option state); transitions = every option setter in every argument form (explicit true/false, argument-less, attribute prefixes {-,\"\",@}, PrependAttrWithHyphen, key prefixes {#,_,$}, field separators, array sizes, skip function nil/f, empty-element syntax, JsonUseNumber) - 62 transitions; all histories of length <= D from the initial state with state de-duplication. On every transition: the reference option machine predicts the whole next state vector (documented semantics incl. toggles, 'disable' for white space, 'reset' for the field separator, the coupling of the two escaping switches), explicit forms are idempotent (the setter's global writes are logged against its documented write set, informational). On every state: 11 API families behave exactly as in the canonical state that agrees on the family's documented dependency set (non-interference), and after restoring defaults the state vector and the behaviour battery equal the fresh-process baseline. non-trivial = distinct states."
+	c.S.Rule = "explicit-state breadth-first search over the real package-option machine: state = dump of every option-like (scalar / function / pointer-nil-ness) package-level variable of mxj, generated at build time so that a new option variable is included automatically (tables, caches and pools are not option state); transitions = every option setter in every argument form (explicit true/false, argument-less, attribute prefixes {-,\"\",@}, PrependAttrWithHyphen, key prefixes {#,_,$}, field separators, array sizes, skip function nil/f, empty-element syntax, JsonUseNumber) - 62 transitions; all histories of length <= D from the initial state with state de-duplication. On every transition: the reference option machine predicts the whole next state vector (documented semantics incl. toggles, 'disable' for white space, 'reset' for the field separator, the coupling of the two escaping switches), explicit forms are idempotent (the setter's global writes are logged against its documented write set, informational). On every state: 11 API families behave exactly as in the canonical state that agrees on the family's documented dependency set (non-interference), and after restoring defaults the state vector and the behaviour battery equal the fresh-process baseline. Cold starts: every history of length 1 (thorough: <= 2) is also run as the first thing a fresh process does (a child process of the worker): it applies the history, uses all 11 families, restores the defaults and uses them again - behaviour after the restore must equal the fresh baseline and behaviour in the state must equal what the long-lived worker shows in that state (whatever is initialised lazily must not freeze the options in force at first use). non-trivial = distinct states."
 	c.S.Assumptions = []string{"key prefixes are single punctuation characters (as the property states)", "the fresh-process baseline is recorded in the worker before any setter is called"}
 	depth := 4
 	if c.Thorough {
@@ -643,12 +647,114 @@ func c18Run(c *Ctx) {
 		frontier = next
 		c.S.BoundCompleted = d + 1
 	}
+	// cold starts: every history of length 1 (thorough: <= 2) as the first thing a fresh process does
+	ci := 0
+	for t1 := range e.trans {
+		if own(ci) && !c.Capped() {
+			e.coldCheck([]int{t1})
+		}
+		ci++
+		if c.Thorough {
+			for t2 := range e.trans {
+				if own(ci) && !c.Capped() {
+					e.coldCheck([]int{t1, t2})
+				}
+				ci++
+			}
+		}
+	}
 	if c.Shard == 0 {
 		c.Count("distinct_states_total", int64(len(seen)))
 		c.Count("transitions_per_state", int64(len(e.trans)))
 	}
 	resetOptions()
 	// (the end-of-run state comparison is done for every property in main.go)
+}
+
+// ---- cold starts: the history is the very first thing a fresh process does ----
+
+type c18ColdOut struct {
+	R1      map[string]string `json:"in_state"`      // behaviour of every family in the state the history reaches
+	VecDiff string            `json:"restore_diff"`  // option vector after restoring defaults vs the child's own fresh vector
+	R2      map[string]string `json:"after_restore"` // behaviour after restoring defaults
+	Err     string            `json:"error,omitempty"`
+}
+
+// c18ColdChild runs in a fresh process (harness command "c18cold"): no decoder, encoder or query has run
+// before the history is applied, so whatever the library initialises lazily is initialised in that state.
+func c18ColdChild(names []string) {
+	out := c18ColdOut{R1: map[string]string{}, R2: map[string]string{}}
+	trans, fams := c18Transitions(), c18Families()
+	base := realVector()
+	idx := map[string]int{}
+	for i, t := range trans {
+		idx[t.name] = i
+	}
+	for _, n := range names {
+		t, ok := idx[n]
+		if !ok {
+			out.Err = "unknown transition " + n
+			break
+		}
+		trans[t].real()
+	}
+	if out.Err == "" {
+		for _, f := range fams {
+			out.R1[f.name] = f.run()
+		}
+		resetOptions()
+		out.VecDiff = diffModels(base, realVector())
+		for _, f := range fams {
+			out.R2[f.name] = f.run()
+		}
+	}
+	b, _ := json.Marshal(out)
+	fmt.Println(string(b))
+}
+
+// coldCheck: a fresh process applies the history first, uses every family, restores the defaults and uses
+// every family again. Behaviour after the restore must equal this process's fresh baseline, and behaviour
+// in the state must equal what this process (which reached the state after a long history) shows there.
+func (e *c18Engine) coldCheck(history []int) {
+	c := e.c
+	names := e.names(history)
+	exe, err := os.Executable()
+	if err != nil {
+		c.Broken("C18 cold start: %v", err)
+		return
+	}
+	arg, _ := json.Marshal(names)
+	raw, err := exec.Command(exe, "c18cold", string(arg)).Output()
+	var out c18ColdOut
+	if err != nil || json.Unmarshal(bytes.TrimSpace(raw), &out) != nil || out.Err != "" {
+		c.Broken("C18 cold start child failed: %v %s %s", err, out.Err, short(string(raw), 300))
+		return
+	}
+	c.S.Transitions += int64(2 * len(e.fams))
+	c.S.Validated++
+	c.Count("cold_start_processes", 1)
+	cas := c18Case{History: names, Cold: true}
+	if out.VecDiff != "" {
+		c.Violate("restore-defaults", "state-restored", "cold-start", cas, nil, fmt.Sprintf("fresh process: history=%v then defaults restored: %s", names, out.VecDiff))
+		return
+	}
+	for _, f := range e.fams {
+		if out.R2[f.name] != e.baseBat[f.name] {
+			cas.Family = f.name
+			c.Violate("restore-defaults", "behaviour-restored", "cold-start", cas, nil,
+				fmt.Sprintf("a fresh process applies %v, uses the library, restores the defaults: family %s then behaves differently from a fresh process\n now  : %s\n fresh: %s", names, f.name, short(out.R2[f.name], 600), short(e.baseBat[f.name], 600)))
+			return
+		}
+	}
+	e.goTo(history)
+	for _, f := range e.fams {
+		if got := f.run(); got != out.R1[f.name] {
+			cas.Family = f.name
+			c.Violate(f.name, "history-independence", "cold-start", cas, nil,
+				fmt.Sprintf("option state reached by %v: family %s behaves differently in a process that used the library under the defaults before than in a fresh process\n used before: %s\n fresh      : %s", names, f.name, short(got, 600), short(out.R1[f.name], 600)))
+			return
+		}
+	}
 }
 
 func c18Replay(c *Ctx, k c18Case) {
@@ -660,6 +766,15 @@ func c18Replay(c *Ctx, k c18Case) {
 	idx := map[string]int{}
 	for i, t := range e.trans {
 		idx[t.name] = i
+	}
+	if k.Cold {
+		var hist []int
+		for _, n := range k.History {
+			hist = append(hist, idx[n])
+		}
+		e.coldCheck(hist)
+		resetOptions()
+		return
 	}
 	var hist []int
 	m := e.base.clone()
